@@ -120,6 +120,7 @@ func candidates(sc *Scenario) []*Scenario {
 		}
 	}
 	add(func(c *Scenario) bool { ok := c.Graphs > 1; c.Graphs = 1; return ok })
+	add(func(c *Scenario) bool { ok := c.Graphs > 2; c.Graphs = 2; return ok })
 	add(func(c *Scenario) bool { ok := c.Again; c.Again = false; return ok })
 	add(func(c *Scenario) bool { ok := c.Inner != nil; c.Inner = nil; return ok })
 	add(func(c *Scenario) bool {
